@@ -1,4 +1,5 @@
 import PdModel.Model.RegionTree
+import PdModel.Generated.RegionCache
 /-
 Model of the region-heartbeat path: core.BasicCluster.PreCheckPutRegion / PutRegion (server/core/basic_cluster.go)
 and RaftCluster.processRegionHeartbeat (server/cluster/cluster.go) over the `RegionsInfo` model, plus the region
@@ -100,6 +101,65 @@ def heartbeat (c : Cluster) (r : Region) : Cluster × Verdict :=
       match v1 with
       | .stale => (c1, .stale)
       | .ok => (store c1 r f.saveKV overlaps, .ok)
+
+/-- what the storage part of this heartbeat does (`saveKV`, the displaced regions it deletes), or nothing
+    when the heartbeat is refused or ignored -/
+def heartbeatWrites (c : Cluster) (r : Region) : Bool × List Region :=
+  let (origin, v) := preCheckPutRegion c.ri r
+  match v with
+  | .stale => (false, [])
+  | .ok =>
+    let f := computeFlags origin r
+    if !f.saveKV && !f.saveCache && !f.isNew then (false, [])
+    else
+      let (_, v1, overlaps) := if f.saveCache then commit c r else (c, .ok, [])
+      match v1 with
+      | .stale => (false, [])
+      | .ok => (f.saveKV, overlaps)
+
+/-! ### core.RegionStorage (server/core/region_storage.go): leveldb behind a write batch
+
+`SaveRegion` puts the meta into `batchRegions` and flushes the whole batch when `cacheSize` reaches
+`batchSize - 1` (or on `FlushRegion`, or – not modelled, the harness never idles that long – by the 3 s timer);
+`Remove` drops a pending write of the key and deletes the key on disk.  Readers (`LoadRegion(s)`) see the disk only.
+The logical content (disk overlaid with the batch) is `Cluster.storage`. -/
+
+def defaultBatchSize : Nat := PdModel.Generated.RegionCache.defaultBatchSize
+
+structure RegionStorage where
+  disk : List (Nat × Meta) := []
+  batch : List (Nat × Meta) := []
+  cacheSize : Nat := 0
+  deriving Repr, Inhabited
+
+def RegionStorage.flush (s : RegionStorage) : RegionStorage :=
+  { disk := s.batch.foldl (fun d e => mapSet d e.1 e.2) s.disk, batch := [], cacheSize := 0 }
+
+def RegionStorage.save (s : RegionStorage) (m : Meta) : RegionStorage :=
+  if s.cacheSize < defaultBatchSize - 1 then
+    { s with batch := mapSet s.batch m.id m, cacheSize := s.cacheSize + 1 }
+  else ({ s with batch := mapSet s.batch m.id m } : RegionStorage).flush
+
+def RegionStorage.remove (s : RegionStorage) (id : Nat) : RegionStorage :=
+  { s with batch := mapDel s.batch id, disk := mapDel s.disk id }
+
+/-- the storage part of a heartbeat on the batched storage -/
+def RegionStorage.apply (s : RegionStorage) (r : Region) (w : Bool × List Region) : RegionStorage :=
+  let s1 := w.2.foldl (fun s item => s.remove item.id) s
+  if w.1 then s1.save (metaOf r) else s1
+
+/-- core.NewRegionInfo(meta, nil): what LoadRegions hands to its callback -/
+def regionOfMeta (m : Meta) : Region :=
+  { id := m.id, startKey := m.startKey, endKey := m.endKey, version := m.version, confVer := m.confVer, peers := m.peers }
+
+/-- BasicCluster.CheckAndPutRegion on a fresh cache for every stored meta in id order (the server start):
+    the regions that end up being served -/
+def reload (metas : List (Nat × Meta)) : RegionsInfo :=
+  metas.foldl (fun ri e =>
+    let r := regionOfMeta e.2
+    match (preCheckPutRegion ri r).2 with
+    | .stale => ri
+    | .ok => (setRegion ri r).1) {}
 
 /-! ### concurrent streams: the same code, one atomic section per step -/
 
